@@ -87,6 +87,9 @@ def crystal_library():
                                        noreduce=True)
     L['rect-ab-general'] = lambda: _c(a([[1., 0.], [0., 1.25]]), [[a([0., 0.])], [a([0.2, 0.35])]], noreduce=True)
     L['ortho-abc-mirror'] = lambda: _c(np.diag([1., 1.25, 1.5]), [[a([0., 0., 0.])], [a([0.5, 0.5, 0.3])], [a([0.25, 0., 0.])]], noreduce=True)
+    # omega-Ti like: two equivalent sites first, the inequivalent one LAST
+    L['omega'] = lambda: _c(a([[1., 0.5, 0.], [0., np.sqrt(0.75), 0.], [0., 0., 0.612]]),
+                            [a([1. / 3, 1. / 3, 0.5]), a([2. / 3, 2. / 3, 0.5]), a([0., 0., 0.])])
     L['fcc-nosym'] = lambda: _c(0.5 * a([[0., 1., 1.], [1., 0., 1.], [1., 1., 0.]]), [a([0., 0., 0.])], NOSYM=True)
     L['hcp-nosym'] = lambda: _c(a([[0.5, 0.5, 0.], [-np.sqrt(0.75), np.sqrt(0.75), 0.], [0., 0., np.sqrt(8. / 3.)]]),
                                 [a([1. / 3, 2. / 3, 0.25]), a([2. / 3, 1. / 3, 0.75])], NOSYM=True)
